@@ -276,3 +276,171 @@ def fs_fault(k: int, ssc: bool, has_bak: bool, has_out: bool, op: int) -> bool:
             return False
         return True
     return k > fs.n   # no fault injected: the run performs fewer than k operations
+
+
+# ------------------------------------------------------------------ byte level: real codecs over representative contents
+from xhlib import BytesFS
+
+_U8 = "é日本".encode("utf-8")
+BYTE_PAYLOADS = [
+    # (bytes put in the TITLE value, bytes appended after the last parameter)
+    (b"plain", b""),                                   # 0 ASCII only
+    (_U8, b""),                                        # 1 UTF-8 multi-byte text
+    (b"Beyonc\xe9 x", b""),                            # 2 CP1252 only (0xE9 inside the text)
+    (b"t", b"#ARTIST:Beyonc\xe9"),                     # 3 CP1252 only: 0xE9 is the very last byte (unterminated value)
+    ("日本語".encode("cp932"), b""),                    # 4 CP932 text whose bytes are also CP1252-decodable
+    ("、あ".encode("cp932"), b""),                      # 5 CP932 text containing 0x81 (undefined in CP1252)
+    ("한국어".encode("cp949"), b""),                    # 6 CP949 text
+    (b"\x81\xff\x81", b""),                            # 7 decodes under no tried encoding
+    (b"t", b"// trailing \xe6\x97"),                   # 8 ends in an incomplete UTF-8 sequence
+    (b"t", b"#SUBTITLE:\x93"),                         # 9 ends in a lone CP932/CP949 lead byte
+    (b"a\x8d", b""),                                   # 10 0x8D: undefined in CP1252
+]
+
+
+def _bytes_content(ci, ssc):
+    p, tail = BYTE_PAYLOADS[ci]
+    if ssc:
+        return b"#VERSION:0.83;\n#TITLE:" + p + b";\n#ARTIST:y;\n#NOTEDATA:;\n#STEPSTYPE:dance-single;\n#METER:1;\n#NOTES:0000\n0000;\n" + tail
+    return b"#TITLE:" + p + b";\n#ARTIST:y;\n#BPMS:0.000=120.000;\n#NOTES:dance-single:d:Easy:1:0,0:0000\n0000;\n" + tail
+
+
+def _first_decoding(data, tried):
+    for e in tried:
+        try:
+            return e, data.decode(e)      # Python's codecs are the trusted base for what "decodes" means
+        except UnicodeDecodeError:
+            pass
+    return None, None
+
+
+def _reference(text, ssc):
+    from msdparser import MSDParserError
+    try:
+        return simfile.loads(text), None
+    except MSDParserError as e:
+        return None, MSDParserError
+
+
+def _canon(sf):
+    """content of a simfile, with each SSC chart's note data moved last (what a save/load cycle preserves, C02/C04)"""
+    charts = []
+    for ch in sf.charts:
+        items = list(ch.items())
+        if type(ch).__name__ == "SSCChart":
+            nk = "NOTES" if "NOTES" in ch else "NOTES2"
+            items = [kv for kv in items if kv[0] != nk] + [kv for kv in items if kv[0] == nk]
+        charts.append((items, list(getattr(ch, "extradata", None) or [])))
+    return (type(sf).__name__, list(sf.items()), charts)
+
+
+def detect_bytes(ci: int, order: int, explicit: int, ssc: bool) -> bool:
+    """
+    pre: 0 <= ci < len(BYTE_PAYLOADS) and 0 <= order < len(ORDERS) and 0 <= explicit <= 4
+    post: _
+    """
+    global LAST
+    from msdparser import MSDParserError
+    xhlib.install_real()
+    try:
+        name = "a.ssc" if ssc else "a.sm"
+        data = _bytes_content(ci, ssc)
+        fs = BytesFS({name: data})
+        tried = [ENC[i] for i in ORDERS[order]] if explicit == 0 else [ENC[explicit - 1]]
+        want_enc, text = _first_decoding(data, tried)
+        ref, ref_exc = (None, None) if want_enc is None else _reference(text, ssc)
+        try:
+            if explicit:
+                sf, enc = simfile.open(name, filesystem=fs, encoding=ENC[explicit - 1]), ENC[explicit - 1]
+            elif order == 0:
+                sf, enc = open_with_detected_encoding(name, filesystem=fs)
+            else:
+                sf, enc = open_with_detected_encoding(name, try_encodings=tried, filesystem=fs)
+        except UnicodeDecodeError:
+            LAST = ("UnicodeDecodeError although the file decodes as", want_enc)
+            return want_enc is None and fs.files == {name: data}
+        except MSDParserError:
+            return ref_exc is MSDParserError
+        if want_enc is None or ref_exc is not None:
+            LAST = ("no error", want_enc, ref_exc)
+            return False
+        if enc != want_enc or sf != ref or type(sf) is not type(ref):
+            LAST = ("encoding / content", enc, want_enc)
+            return False
+        return fs.files == {name: data}
+    finally:
+        xhlib.install_stub()
+
+
+def mutate_bytes(ci: int, order: int, has_out: bool, has_bak: bool, op: int, ssc: bool) -> bool:
+    """
+    pre: 0 <= ci < len(BYTE_PAYLOADS) and 0 <= order < len(ORDERS) and 0 <= op <= 3
+    post: _
+    """
+    global LAST
+    import copy
+    from msdparser import MSDParserError
+    xhlib.install_real()
+    try:
+        ext = ".ssc" if ssc else ".sm"
+        name = "a" + ext
+        data = _bytes_content(ci, ssc)
+        fs = BytesFS({name: data, "other.txt": b"keep"})
+        before = dict(fs.files)
+        tried = [ENC[i] for i in ORDERS[order]]
+        want_enc, text = _first_decoding(data, tried)
+        ref, ref_exc = (None, None) if want_enc is None else _reference(text, ssc)
+        out = ("o" + ext) if has_out else None
+        bak = ("b" + ext) if has_bak else None
+        entry = exit_ = None
+        new_title = ["", "new title", "café 日", ""][op]
+        try:
+            with mutate(name, output_filename=out, backup_filename=bak, try_encodings=tried, filesystem=fs) as sf:
+                entry = copy.deepcopy(sf)
+                if op in (1, 2):
+                    sf.title = new_title
+                elif op == 3:
+                    sf.charts[0].meter = "13"
+                    sf.charts.append(copy.deepcopy(sf.charts[0]))
+                exit_ = copy.deepcopy(sf)
+        except UnicodeDecodeError:
+            LAST = ("UnicodeDecodeError although the file decodes as", want_enc)
+            return want_enc is None and fs.files == before
+        except MSDParserError:
+            return ref_exc is MSDParserError and fs.files == before
+        except UnicodeEncodeError:
+            # the edited simfile cannot be encoded in the detected encoding: nothing may have been written (C06)
+            try:
+                str(exit_).encode(want_enc)
+                LAST = ("UnicodeEncodeError although the text encodes",)
+                return False
+            except UnicodeEncodeError:
+                return fs.files == before
+        if want_enc is None or ref_exc is not None or entry != ref:
+            LAST = ("loaded content", want_enc, ref_exc)
+            return False
+        target = out or name
+        if set(fs.files) != set(before) | {target} | ({bak} if bak else set()) or fs.files["other.txt"] != b"keep":
+            LAST = ("files", sorted(fs.files))
+            return False
+        if has_out and fs.files[name] != data:
+            LAST = ("input touched although an output name was given",)
+            return False
+        cls = type(exit_)
+        if _canon(cls(string=fs.files[target].decode(want_enc))) != _canon(exit_):
+            LAST = ("output decoded with the detected encoding does not parse to the simfile at block exit",)
+            return False
+        if bak and _canon(cls(string=fs.files[bak].decode(want_enc))) != _canon(entry):
+            LAST = ("backup does not parse to the simfile at block entry",)
+            return False
+        # a no-op mutate on the file just written leaves its bytes unchanged whenever it is again read in the same encoding
+        written = fs.files[target]
+        again_enc, _ = _first_decoding(written, tried)
+        with mutate(target, try_encodings=tried, filesystem=fs) as sf2:
+            pass
+        if again_enc == want_enc and fs.files[target] != written:
+            LAST = ("second no-op mutate changed the bytes",)
+            return False
+        return True
+    finally:
+        xhlib.install_stub()
